@@ -283,12 +283,18 @@ def run_case(case):
     from collada import scene
     M = numpy.identity(4)
     M[:3, :] = numpy.array(case['matrix'], dtype=float)
-    matmap = {'mat%d' % s: scene.MaterialNode('mat%d' % s, Target(t), []) for s, t in case['matmap']}
+    import xml.etree.ElementTree as ET
+    mi = case.get('matinputs') or {}
+    matmap = {'mat%d' % s: scene.MaterialNode('mat%d' % s, Target(t), [tuple(e) for e in mi.get(str(s), [])],
+                                              xmlnode=ET.Element('instance_material'))
+              for s, t in case['matmap']}
     from collada import geometry, source
     import collada
     dummy = source.FloatSource('dummy', numpy.zeros(3, dtype=numpy.float32), ('X', 'Y', 'Z'))
     g = geometry.Geometry(collada.Collada(), 'gb', 'gb', [dummy], [p])
-    b = list(g.bind(M, matmap).primitives())[0]
+    # bound the way a scene does it: GeometryNode with its MaterialNodes -> BoundGeometry -> primitives()
+    gnode = scene.GeometryNode(g, list(matmap.values()))
+    b = list(list(gnode.objects('geometry', M))[0].primitives())[0]
     blen = len(b)
     code, val = attempt(lambda: list(b.shapes()))
     bshapes = [code, [obs_item(it, b, kind, True, symbols) for it in val] if code == 0 else []]
